@@ -1,7 +1,7 @@
 """C03 — every supported training password is reproduced by the trained grammar; probabilities sum to 1."""
 import os
 from collections import Counter
-from .. import repo, oracles, monitors, gstream, trained
+from .. import repo, oracles, monitors, gstream, trained, trainlists
 from ..evidence import h
 
 LEVEL = 'exploration'
@@ -67,6 +67,18 @@ def check_case(run, case):
                 near = [g for g in emitted if g.lower() == pw.lower()][:4]
                 run.violation(f'training password {pw!r} (structure {"".join(labs)}) is never generated from the trained ruleset', case,
                               observed={'segments': secs, 'same_letters_other_case': near, 'language_size': sum(emitted.values())})
+                return
+        # the passwords of the LIST are the training passwords: one the trainer never parsed (read differently, dropped) cannot have been learned
+        for pw in dict.fromkeys(p for p, k in case['items']):
+            if pw in seen_pw or not oracles.valid_password(pw) or not trainlists.encodable(pw, case['encoding']):
+                continue
+            run.ev('list_passwords_the_trainer_never_parsed')
+            if '@' in pw or '.' in pw or not trained.in_case_domain(pw) or (pw.startswith('$HEX[') and pw.endswith(']')):
+                continue          # could hold an e-mail / website segment, or is outside the stated domain: nothing is claimed
+            if emitted[pw] == 0:
+                near = [g for g, _ in res.segmented if g.strip() == pw.strip()][:3]
+                run.violation(f'password {pw!r} of the training list was not trained on (the trainer parsed {near} instead) and is never generated from the trained ruleset', case,
+                              observed={'parsed_instead': near, 'prefixcount': bool(case.get('prefixcount'))})
                 return
         if mon.pops and abs(total[0] - 1.0) > 1e-9:
             run.violation(f'probabilities of all emitted guesses sum to {total[0]!r}, not 1', case, observed=total[0]); return
